@@ -186,8 +186,8 @@ func R05() Rule {
 			if transfer != nil {
 				for _, b := range fn.Blocks {
 					for _, in := range b.Instrs {
-						if in == transfer || !core.InstrReaches(transfer, in) {
-							continue
+						if in == transfer || !core.InstrReaches(transfer, in) || core.InstrDominates(in, transfer) {
+							continue // (a use that dominates the hand-over precedes it; it is reached "after" only round a loop, with the next message)
 						}
 						used := false
 						switch x := in.(type) {
@@ -410,36 +410,41 @@ func R21() Rule {
 		ns := P.MustFunc(core.PkgBttest, "NewServerWithOptions")
 		c.Fn("NewServerWithOptions")
 		okW := false
-		for _, b := range ns.Blocks {
-			for _, in := range b.Instrs {
-				mu, isMU := in.(*ssa.MapUpdate)
-				if !isMU {
-					continue
-				}
-				nt, isCall := core.Resolve(mu.Value).(*ssa.Call)
-				if !isCall || !core.Call(nt).IsFunc(core.PkgBttest, "newTable") {
-					continue
-				}
-				op, isOpen := core.Resolve(nt.Call.Args[1]).(*ssa.Call)
-				if !isOpen || !core.Call(op).IsIfaceMethod(core.PkgBttest, "Storage", "Open") {
-					continue
-				}
-				if !core.SameValue(op.Call.Args[0], nt.Call.Args[0]) {
-					continue
-				}
-				// the element comes from GetTables()
-				src := strings.Join(fieldChain(nt.Call.Args[0]), ".")
-				_ = src
-				fromGet := false
-				if ld, ok := core.Resolve(nt.Call.Args[0]).(*ssa.UnOp); ok {
-					if ia, ok := ld.X.(*ssa.IndexAddr); ok {
-						if call, ok := core.Resolve(ia.X).(*ssa.Call); ok && core.Call(call).IsIfaceMethod(core.PkgBttest, "Storage", "GetTables") {
-							fromGet = true
+		// the constructor and the helpers it is split into
+		for _, nsf := range P.Scope(ns, func(f *ssa.Function) bool {
+			return core.PkgPathOf(f) != core.PkgBttest || core.FuncName(f) == "newTable"
+		}) {
+			for _, b := range nsf.Blocks {
+				for _, in := range b.Instrs {
+					mu, isMU := in.(*ssa.MapUpdate)
+					if !isMU {
+						continue
+					}
+					nt, isCall := core.Resolve(mu.Value).(*ssa.Call)
+					if !isCall || !core.Call(nt).IsFunc(core.PkgBttest, "newTable") {
+						continue
+					}
+					op, isOpen := core.Resolve(nt.Call.Args[1]).(*ssa.Call)
+					if !isOpen || !core.Call(op).IsIfaceMethod(core.PkgBttest, "Storage", "Open") {
+						continue
+					}
+					if !core.SameValue(op.Call.Args[0], nt.Call.Args[0]) {
+						continue
+					}
+					// the element comes from GetTables()
+					src := strings.Join(fieldChain(nt.Call.Args[0]), ".")
+					_ = src
+					fromGet := false
+					if ld, ok := core.Resolve(nt.Call.Args[0]).(*ssa.UnOp); ok {
+						if ia, ok := ld.X.(*ssa.IndexAddr); ok {
+							if call, ok := core.Resolve(ia.X).(*ssa.Call); ok && core.Call(call).IsIfaceMethod(core.PkgBttest, "Storage", "GetTables") {
+								fromGet = true
+							}
 						}
 					}
-				}
-				if fromGet && prePublication(P, in) {
-					okW = true
+					if fromGet && prePublication(P, in) {
+						okW = true
+					}
 				}
 			}
 		}
